@@ -26,7 +26,9 @@ MIN = {'quick': {'distinct': 300,
                            'treeanalysis.disco_order': 500,
                            'cli.treeanalysis': 30},
                  'strata': {'node gapdeg>=2': 50, 'cli source in latin-1': 6,
-                            're-analysis after in-place transformation': 300}},
+                            're-analysis after in-place transformation': 300,
+                            'looked at before the in-place transformation: '
+                            'extract': 60}},
        'thorough': {'distinct': 20000,
                     'hooks': {'treeanalysis.gap_degree_node': 500000,
                               'cli.treeanalysis': 1000}}}
@@ -168,7 +170,18 @@ def api_tree(ctx, spec, rng):
               'gap_degree() %r, bracket writer refused=%r, grammar '
               'context-free=%r' % (exp, gd, refused, cf))
     if rng.random() < 0.25:
-        # same tree objects changed in place, analysed again
+        # same tree objects changed in place, analysed again; before that
+        # the tree is looked at (written, numbered, a grammar extracted ...):
+        # nothing such a look leaves on the nodes may stand in for the
+        # token positions afterwards
+        if rng.random() < 0.7:
+            from . import pipeline
+            what = rng.choice(('extract', 'extract', 'export', 'numbering',
+                               'analysis', 'navigation'))
+            with common.captured():
+                pipeline.look(R, what, live)
+            ctx.stratum('looked at before the in-place transformation: '
+                        + what)
         try:
             with common.captured():
                 t2 = R.transform.root_attach(live)
